@@ -330,7 +330,8 @@ type concProbe struct {
 	parked      atomic.Bool // the Emit call `parkAt` is waiting for its ctx
 	slowWait    atomic.Bool // the cancelled parked call is waiting for the environment before it returns
 	slowRelease chan struct{}
-	openFail    bool // Open returns an error (sofail=1)
+	slowSince   atomic.Int64 // when the cancelled parked call started to wait for the environment
+	openFail    bool         // Open returns an error (sofail=1)
 }
 
 // releaseSlow lets a cancelled-but-still-inside Emit call return; reports whether there was one.
@@ -402,6 +403,7 @@ func (p *concProbe) Emit(ctx context.Context) (int, error) {
 		if p.slowret > 0 {
 			// slow to cancel: the call stays inside the provider until the environment lets it go (a blocked state
 			// for the quiescence detector); the timer is only a safety net
+			p.slowSince.Store(time.Now().UnixNano())
 			p.slowWait.Store(true)
 			select {
 			case <-p.slowRelease:
@@ -468,6 +470,7 @@ type concCase struct {
 	dl       bool   // the caller's context ends by its DEADLINE (ctx.Err() = context.DeadlineExceeded) instead of a cancel call
 	mwf      bool   // the stage is MapWhileFilteringWithErrAndCtx with the concurrent option: the mapper filters elements i with i%3 == 1 out (nil)
 	cbms     int    // every concurrent-consume callback takes this many milliseconds (workers busy and the item channel full for long)
+	slowhold int    // the environment keeps a cancelled, slow-to-return Emit call inside the provider for this many ms (longer than any grace period)
 	sofail   bool   // the SOURCE provider's Open fails (the asynchronous stage has nothing to read: no reader may be waited for)
 	osat     bool   // the failing Open waits until the stage has saturated (the source is no longer pulled: workers hold results nobody takes)
 	rep      int    // materialise the SAME stream value this many times (>= 1)
@@ -552,6 +555,8 @@ func parseConcCase(text string) (*concCase, error) {
 			cc.mwf = v == "1"
 		case "cbms":
 			cc.cbms = atoi()
+		case "slowhold":
+			cc.slowhold = atoi()
 		case "dl":
 			cc.dl = v == "1"
 		case "slowat":
@@ -1196,6 +1201,12 @@ func (r *concRun) materialise(root context.Context, rootCancel context.CancelFun
 				if hang != "" {
 					break
 				}
+				continue
+			}
+			if cc.slowhold > 0 && r.src.slowWait.Load() &&
+				time.Since(time.Unix(0, r.src.slowSince.Load())) < time.Duration(cc.slowhold)*time.Millisecond {
+				// a source that needs a long time to come back from a cancelled call: the terminal has to wait it out
+				time.Sleep(5 * time.Millisecond)
 				continue
 			}
 			if r.src.releaseSlow() {
